@@ -5319,14 +5319,15 @@ class PyCdlib:
         if boot_dirrecord.inode is None:
             raise pycdlibexception.PyCdlibInternalError('Tried to add an empty boot dirrecord inode to the El Torito boot catalog')
 
+        # Nothing on the ISO may change before we know that the whole call can
+        # succeed, so the boot info table is only attached at the very end.
+        bi_table = None
         if boot_info_table:
             orig_len = boot_dirrecord.get_data_length()
             bi_table = eltorito.EltoritoBootInfoTable()
             with inode.InodeOpenData(boot_dirrecord.inode, self.logical_block_size) as (data_fp, data_len):
                 bi_table.new(self.pvd, boot_dirrecord.inode, orig_len,
                              self._calculate_eltorito_boot_info_table_csum(data_fp, data_len))
-
-            boot_dirrecord.inode.add_boot_info_table(bi_table)
 
         system_type = 0
         if media_name == 'hdemul':
@@ -5348,18 +5349,20 @@ class PyCdlib:
             # Step 2.
             br = headervd.BootRecord()
             br.new(b'EL TORITO SPECIFICATION')
+
+            # Step 3.  Creating the catalog validates the media parameters, so
+            # only make the Boot Record and the catalog part of the ISO once
+            # that has succeeded.
+            new_catalog = eltorito.EltoritoBootCatalog(br)
+            new_catalog.new(br, boot_dirrecord.inode, sector_count,
+                            boot_load_seg, media_name, system_type,
+                            platform_id, bootable)
             self.brs.append(br)
+            self.eltorito_boot_catalog = new_catalog
             # On a UDF ISO, adding a new Boot Record doesn't actually increase
             # the size, since there are a bunch of gaps at the beginning.
             if not self._has_udf:
                 num_bytes_to_add += self.logical_block_size
-
-            # Step 3.
-            self.eltorito_boot_catalog = eltorito.EltoritoBootCatalog(br)
-            self.eltorito_boot_catalog.new(br, boot_dirrecord.inode,
-                                           sector_count, boot_load_seg,
-                                           media_name, system_type, platform_id,
-                                           bootable)
 
             # Step 4.
             rrname = ''
@@ -5369,10 +5372,26 @@ class PyCdlib:
                 else:
                     rrname = rr_bootcatname
 
-            num_bytes_to_add += self._add_fp(None, self.logical_block_size,
-                                             False, bootcatfile, rrname,
-                                             joliet_bootcatfile,
-                                             udf_bootcatfile, None, True)
+            try:
+                num_bytes_to_add += self._add_fp(None, self.logical_block_size,
+                                                 False, bootcatfile, rrname,
+                                                 joliet_bootcatfile,
+                                                 udf_bootcatfile, None, True)
+            except Exception:
+                # The catalog could not be given its names (missing parent,
+                # duplicate name, ...), so take El Torito off the ISO again.
+                for rec in new_catalog.dirrecords:
+                    if isinstance(rec, dr.DirectoryRecord):
+                        self._rm_dr_link(rec)
+                    else:
+                        self._rm_udf_link(rec)
+                boot_dirrecord.inode.linked_records = [(rec, is_pvd) for rec, is_pvd in boot_dirrecord.inode.linked_records if id(rec) != id(new_catalog.initial_entry)]
+                self.brs = [b for b in self.brs if id(b) != id(br)]
+                self.eltorito_boot_catalog = None
+                raise
+
+        if bi_table is not None:
+            boot_dirrecord.inode.add_boot_info_table(bi_table)
 
         self._finish_add(0, num_bytes_to_add)
 
